@@ -51,6 +51,10 @@ def main():
     assert out.strip() == "", "repo not clean: " + out
     rc, out = sh("git -C /repo apply %s" % patch)
     assert rc == 0, out
+    # evidence/ must only ever hold runs against the unchanged tree: keep it aside while the patched tree is checked
+    bak = "/tmp/vt_evidence_backup"
+    shutil.rmtree(bak, ignore_errors=True)
+    shutil.copytree("/verif/evidence", bak)
     try:
         res["checks"] = {}
         for c in checks:
@@ -61,6 +65,9 @@ def main():
             res["checks"][c] = {"exit": rc, "violations": v[:3], "first": first, "s": round(time.time() - t0, 1)}
     finally:
         sh("git -C /repo checkout -- .")
+        shutil.rmtree("/verif/evidence", ignore_errors=True)
+        shutil.copytree(bak, "/verif/evidence")
+        shutil.rmtree(bak, ignore_errors=True)
     print(json.dumps(res, indent=1))
 
 main()
